@@ -23,7 +23,12 @@ def fieldset_dispatch(syn, efile):
     def single_call(b):
         while b["k"] == "BlockExpr" and len(b["block"]["stmts"]) == 1 and b["block"]["stmts"][0]["k"] == "ExprStmt" and not b["block"]["stmts"][0].get("semi"):
             b = b["block"]["stmts"][0]["expr"]
-        return b if b["k"] == "MethodCall" and ident_of(b["recv"]) == "self" else None
+        if b["k"] == "MethodCall" and ident_of(b["recv"]) == "self":
+            return b
+        # the same renderer called as an associated function (`Self::f(..)`) because it no longer needs `self`
+        if b["k"] == "Call" and b["func"]["k"] == "Path" and b["func"]["path"]["segs"][:-1] in ([], ["Self"]):
+            return {"k": "MethodCall", "method": b["func"]["path"]["segs"][-1], "args": b["args"], "recv": None, "line": b.get("line", 0)}
+        return None
 
     for (p, impl, fn) in syn.all_fns(path=efile):
         ms = nodes(fn["body"], "Match")
@@ -346,8 +351,11 @@ def run_rules(ctx, res):
     sites = []
     for (p, impl, fn) in syn.all_fns(path=efile):
         for m in nodes(fn["body"], "MethodCall"):
-            if m["method"] == dfn["name"] and ident_of(m["recv"]) == "self" and len(m["args"]) == 2 and m["args"][1]["k"] == "Struct":
-                opts = {f["member"]: unparse(f["expr"]) for f in m["args"][1]["fields"]}
+            oa = m["args"][1] if len(m["args"]) == 2 else None
+            if oa is not None and oa["k"] == "Ref" and not oa.get("mut"):
+                oa = oa["expr"]  # the options handed over by reference
+            if m["method"] == dfn["name"] and ident_of(m["recv"]) == "self" and oa is not None and oa["k"] == "Struct":
+                opts = {f["member"]: unparse(f["expr"]) for f in oa["fields"]}
                 sites.append((fn, m, opts))
     for (fn, m, opts) in sites:
         arg = unparse(m["args"][0])
